@@ -198,12 +198,31 @@ impl<W: 'static, R: 'static, T: 'static> XGenerator<W, R, T> {
                 })
             }),
             Self::Slice(gen, start, end) => either_g({
-                let inner: BIter<_, _, _> = Box::new(to_native!(gen, Self)._iter(ns, rt));
+                let mut inner: BIter<_, _, _> =
+                    Box::new(to_native!(gen, Self)._iter(ns, rt.clone()));
+                // the skipped prefix is consumed here, unseen by the consumer: it is charged to the search budget,
+                // and a violation raised while skipping is passed on instead of being skipped itself
+                let mut to_skip = *start;
+                let mut budget = rt.limits.search_iter();
+                let skipped = iter::from_fn(move || {
+                    while to_skip > 0 {
+                        match inner.next()? {
+                            Err(violation) => return Some(Err(violation)),
+                            Ok(_) => {
+                                to_skip -= 1;
+                                if let Some(Err(violation)) = budget.next() {
+                                    return Some(Err(violation));
+                                }
+                            }
+                        }
+                    }
+                    inner.next()
+                });
                 if let Some(end) = end {
                     // `end` is an absolute position in the inner generator
-                    Either::Left(inner.skip(*start).take(end.saturating_sub(*start)))
+                    Either::Left(skipped.take(end.saturating_sub(*start)))
                 } else {
-                    Either::Right(inner.skip(*start))
+                    Either::Right(skipped)
                 }
             }),
             Self::Filter(gen, func) => either_h({
@@ -514,10 +533,10 @@ impl<W: 'static, R: 'static, T: 'static> XGenerator<W, R, T> {
         Ok(match gen {
             Self::Slice(inner, inner_start, inner_end) => Self::Slice(
                 inner.clone(),
-                inner_start + start,
+                inner_start.saturating_add(start),
                 inner_end
                     .iter()
-                    .chain(end.map(|e| e + inner_start).iter())
+                    .chain(end.map(|e| e.saturating_add(*inner_start)).iter())
                     .min()
                     .cloned(),
             ),
